@@ -78,6 +78,12 @@ type idxRec struct{ Pkg, Dist, Repo int64 }
 type Store struct {
 	mu   sync.Mutex
 	Hook func(ctx context.Context, c Call) Verdict
+	// AfterFiles, when set, is called when a FilesByLayer call has returned to
+	// the point of handing its result back (the last query of the controller's
+	// coalesce state): a harness that releases other goroutines "after the last
+	// query" must do it here, not in Hook, which runs before the method's own
+	// context check.
+	AfterFiles func(ctx context.Context, c Call)
 
 	scanners    map[ScannerKey]int64
 	nextScanner int64
@@ -528,6 +534,9 @@ func (s *Store) RepositoriesByLayer(ctx context.Context, hash claircore.Digest, 
 }
 
 func (s *Store) FilesByLayer(ctx context.Context, hash claircore.Digest, scnrs indexer.VersionedScanners) ([]claircore.File, error) {
+	if s.AfterFiles != nil {
+		defer s.AfterFiles(ctx, Call{Method: "FilesByLayer", Layer: hash.String(), Scanners: scnrs})
+	}
 	ok, herr := s.enter(ctx, Call{Method: "FilesByLayer", Layer: hash.String(), Scanners: scnrs})
 	if !ok {
 		return nil, herr
